@@ -22,6 +22,8 @@ package parser
 //@   ensures[C02,C03] M(p.Lexer.reader) <= old(M(p.Lexer.reader)) + 1
 //@   # end of stream is stable: once EOS, always EOS, and nothing is consumed any more
 //@   ensures[C02,C03] old(p.token) == base.EOS ==> p.token == base.EOS && M(p.Lexer.reader) <= old(M(p.Lexer.reader))
+//@   # C06: Row counts the newlines consumed so far: Row + (newlines still pending in the reader) is constant
+//@   ensures[C06] p.Row + nlPending(p.Lexer.reader) == old(p.Row + nlPending(p.Lexer.reader))
 //@   ensures[C06] old(p.ungetFlg) ==> p.Row == old(p.Row) && p.ErrorRow == old(p.ErrorRow)
 //@   ensures[C06] !old(p.ungetFlg) && p.token == '\n' ==> p.Row == old(p.Row) + 1 && p.ErrorRow == old(p.ErrorRow)
 //@   ensures[C06] !old(p.ungetFlg) && p.token != '\n' && p.token != base.STRING && p.token != base.EOS ==> p.Row == old(p.Row) && p.ErrorRow == p.Row
@@ -39,6 +41,7 @@ package parser
 //@   ensures[C02,C03] old(p.token) == base.EOS ==> result0 == nil && Mp(p) <= old(Mp(p))
 //@   # C06: a string literal advances the row by the newlines it contains, exactly once (when it is
 //@   # lexed); a token that is re-delivered after Unget never moves the row again
+//@   ensures[C06] p.Row + nlPending(p.Lexer.reader) == old(p.Row + nlPending(p.Lexer.reader))
 //@   ensures[C06] !old(p.ungetFlg) && p.token == base.STRING ==> p.Row == old(p.Row) + strings.Count(unbox(p.Lexer.val, "string"), "\n")
 //@   ensures[C06] !old(p.ungetFlg) && p.token == base.STRING ==> p.ErrorRow == old(p.Row)
 //@   ensures[C06] old(p.ungetFlg) ==> p.Row == old(p.Row) && p.ErrorRow == old(p.ErrorRow)
